@@ -703,8 +703,8 @@ impl Prop for C18 {
 
 fn summarize(calls: &[BCall]) -> String {
     let s = format!("{:?}", calls);
-    if s.len() > 300 {
-        format!("{}…", &s[..300])
+    if s.chars().count() > 300 {
+        format!("{}…", s.chars().take(300).collect::<String>())
     } else {
         s
     }
